@@ -1,5 +1,6 @@
 import RtenVerif.Driver.Util
 import RtenVerif.Model.ByteBpe
+import RtenVerif.Model.PreSplit
 
 /-!
 `model_C27` line protocol (stateful: a `T` line defines the tokenizer used by following `E` lines).
@@ -9,6 +10,8 @@ import RtenVerif.Model.ByteBpe
   → `ok` | `err:invalid-merge` | `err:missing-vocab`.
 * `E;<srclen>;<normalized text bytes b.b>;<pieces s-e,…>;<map: - | m<o.o…>>;<src: - | s<b.b…>>`
   → `i=<ids>;o=<token offsets>;d=<ok:bytes|err:id|err:utf8|panic>;s=<slice per token: none|b:bytes>`.
+* `S;<invert 0|1>;<isolate 0|1>;<len>;<regex matches s-e,…>` (`Split::pre_tokenize` over the match
+  list) → the chunks `s-e,…`.
 * `D;<ids ,>` (decode an arbitrary id sequence) → `d=<ok:bytes|err:id|err:utf8|panic>`.
 -/
 namespace RtenVerif.Driver.C27
@@ -75,6 +78,12 @@ def step (st : Option Bpe) (line : String) : Option Bpe × String :=
     | some .invalidMerge => (none, "err:invalid-merge")
     | some .missingVocab => (none, "err:missing-vocab")
     | none => (none, "bad-request")
+  | ["S", invert, isolate, len, mstr] =>
+    match len.toNat?, parseList parseRange mstr with
+    | some n, some ms =>
+      let chunks := RtenVerif.PreSplit.split (invert == "1") (isolate == "1") n ms
+      (st, joinWith "," (chunks.map fun c => s!"{c.1}-{c.2}"))
+    | _, _ => (st, "bad-request")
   | ["D", ids] =>
     match st, parseNatList "," ids with
     | some t, some l => (st, "d=" ++ showDecode (decode t l))
